@@ -34,8 +34,8 @@ def obligations(tier: str) -> list[dict]:
     else:
         for topo in ('flat1', 'flat2', 'flat3', 'mgr2x1', 'mgr1x2'):
             for sh in shapes + ('client_cancel', 'client_disconnect'):
-                obs.append(ob('msg/%s/%s/K2' % (topo, sh), topo, [sh], 'cancel', 2, 3000, maxrank=3))
+                obs.append(ob('msg/%s/%s/K2' % (topo, sh), topo, [sh], 'cancel', 2, 600, maxrank=3))
         for sh in shapes:
-            obs.append(ob('line/flat2/%s/K1' % sh, 'flat2', [sh], 'cancel', 1, 3000, line=True, maxrank=1))
-        obs.append(ob('msg/flat2/cancel+other-client/K2', 'flat2', ['cancel_map', 'map2'], 'cancel', 2, 3000))
+            obs.append(ob('line/flat2/%s/K1' % sh, 'flat2', [sh], 'cancel', 1, 600, line=True, maxrank=1))
+        obs.append(ob('msg/flat2/cancel+other-client/K2', 'flat2', ['cancel_map', 'map2'], 'cancel', 2, 600))
     return obs
